@@ -394,9 +394,12 @@ func (x *Exec) modCall(st *State, in ssa.CallInstruction, resolve func(ssa.Value
 			x.modCallee(st, callee, c.Args, resolve, argOf, m, depth)
 			return
 		}
-		// unknown function value: assume the effects declared for function-typed parameters
-		if x.ct != nil {
-			// dynamic callee effects are described by the caller's own assigns (callback may do what the function may do)
+		// a call through the ghost-traced callback parameter only extends the ghost trace
+		if p, ok := c.Value.(*ssa.Parameter); ok && x.ct != nil && x.ct.Ghost == p.Name() {
+			if tv, ok := st.frames[0].vars["trace"]; ok && tv.A != nil {
+				m.Cells[tv.A.ObjID] = map[int]bool{-1: true}
+			}
+			return
 		}
 		m.All = true
 		return
@@ -696,11 +699,13 @@ func (x *Exec) havocObj(st *State, o *Obj, fields map[int]bool) {
 
 func (x *Exec) loopEnv(st *State) *Env {
 	fr := st.top()
+	// locals first, then parameters: a parameter wins over a local of the same name;
+	// locals of pointer-to-struct type are also reachable as <name>_<Struct>
 	vars := map[string]Val{}
-	for k, v := range fr.params {
+	for k, v := range fr.vars {
 		vars[k] = v
 	}
-	for k, v := range fr.vars {
+	for k, v := range fr.params {
 		vars[k] = v
 	}
 	return &Env{x: x, st: st, vars: vars, oldH: fr.oldHeaps, pkg: x.pkgOf(x.fn)}
